@@ -320,6 +320,7 @@ class Inliner:
 
                 fold_tuple_locals(node)
                 split_parallel_assign(node)        # `a, b = site` with `site = (x, y)` folded in just now: one assignment per name
+                fold_substituted_tests(node, _is_method)   # `if shape is None` with `shape = (n, 3)` folded in just now
                 from .normalize import ssa_straightline
 
                 ssa_straightline(node)
